@@ -138,7 +138,7 @@
     // ---- slice() end to end: Kani cannot finish on slice() (the drop/iteration glue of every dyn Object is explored
     // even for byte strings: > 5 min at length 0), so the per-kind glue is covered by a BOUNDED stand-in executed
     // natively on the property's own box. Not counted as proof.
-//# ob name=slice_box_native role=native_bounded fn=value::ops::slice kind=bounded bound="kinds {bytes, ascii string, multi-byte string, list, tuple, lazy iterable} x len 0..=6 x start,stop in {omitted} U [-9,9] U {i64::MIN, i64::MIN+1, i64::MAX-1, i64::MAX} x step in {omitted} U [-4,4] U {i64::MIN, i64::MIN+1, i64::MAX}: exhaustive (about 3*10^5 slices), native execution of the real function" stmt="slice() returns exactly Python's selection in Python's order with the kind preserved (string from string, bytes from bytes, tuple from tuple, list-like otherwise); step 0 is the only error; no panic"
+//# ob name=slice_box_native role=native_bounded fn=value::ops::slice kind=bounded bound="(thorough tier: len 0..=9, bounds in [-12,12], steps in [-7,7]; about 2*10^6 slices) kinds {bytes, ascii string, multi-byte string, list, tuple, lazy iterable} x len 0..=6 x start,stop in {omitted} U [-9,9] U {i64::MIN, i64::MIN+1, i64::MAX-1, i64::MAX} x step in {omitted} U [-4,4] U {i64::MIN, i64::MIN+1, i64::MAX}: exhaustive (about 3*10^5 slices), native execution of the real function" stmt="slice() returns exactly Python's selection in Python's order with the kind preserved (string from string, bytes from bytes, tuple from tuple, list-like otherwise); step 0 is the only error; no panic"
     fn slice_box_native() {
         fn expected_indices(n: usize, start: Option<i64>, stop: Option<i64>, step: i64) -> Vec<usize> {
             let mut v = Vec::new();
@@ -154,16 +154,18 @@
             }
             v
         }
+        let thorough = std::env::var("VERIF_TIER").map_or(false, |t| t == "thorough");
+        let (maxlen, span): (usize, i64) = if thorough { (9, 12) } else { (6, 9) };
         let mut bounds: Vec<Option<i64>> = vec![None];
-        for b in -9..=9i64 { bounds.push(Some(b)); }
+        for b in -span..=span { bounds.push(Some(b)); }
         for b in [i64::MIN, i64::MIN + 1, i64::MAX - 1, i64::MAX] { bounds.push(Some(b)); }
         let mut steps: Vec<Option<i64>> = vec![None];
-        for s in -4..=4i64 { steps.push(Some(s)); }
+        for s in (if thorough { -7..=7i64 } else { -4..=4i64 }) { steps.push(Some(s)); }
         for s in [i64::MIN, i64::MIN + 1, i64::MAX] { steps.push(Some(s)); }
-        let chars_multi = ['a', 'é', '漢', 'b', '😀', 'c'];
+        let chars_multi = ['a', 'é', '漢', 'b', '😀', 'c', 'ß', 'd', '𝄞'];
         let mut checked = 0u64;
         for kind in 0..6u8 {
-            for n in 0..=6usize {
+            for n in 0..=maxlen {
                 for &start in &bounds { for &stop in &bounds { for &step in &steps {
                     let value = match kind {
                         0 => Value::from_bytes((0..n as u8).collect()),
